@@ -176,10 +176,7 @@ func c03hCheck(sc *hhScenario, obs *hhObs, r *vrt.Result, report func(kind, deta
 		for k, i := range d.Sent {
 			rq := sc.Requests[i]
 			if k >= len(d.Responses) {
-				if d.ByClient {
-					continue // the client itself went away: ending without a reply is allowed
-				}
-				silent = true
+				// root-cause class = what the request's goroutine is doing + the stream's internal state
 				w := "worker goroutine exited"
 				if len(reqBlocked) > 0 {
 					b := reqBlocked[0]
@@ -192,12 +189,21 @@ func c03hCheck(sc *hhScenario, obs *hhObs, r *vrt.Result, report func(kind, deta
 					sig = f[0] + " " + f[1] + fmt.Sprintf(" retried=%v", obs.Attempts[rq.Token] > 1)
 				}
 				sig += fmt.Sprintf(" deviations=%d", r.Cost)
+				detail := fmt.Sprintf("scenario %s, request %s on connection %d; state: %s; blocked=%v log=%v", sc.Name, rq.Token, ci, full, r.Blocked, obs.Log)
+				if d.ByClient {
+					// the client itself went away: ending without a reply is allowed - but the exchange has to END
+					if len(reqBlocked) > 0 || obs.Active != 0 {
+						silent = true
+						report("request never ended after the client disconnected (stream still tracked or its goroutine still waiting): "+w+"; "+sig, detail)
+					}
+					continue
+				}
+				silent = true
 				what := "request never completed (no response, client did not disconnect)"
 				if d.Closed {
 					what = "downstream connection closed by MOSN without a response (client did not disconnect)"
 				}
-				report(what+": "+w+"; "+sig,
-					fmt.Sprintf("scenario %s, request %s on connection %d; state: %s; blocked=%v log=%v", sc.Name, rq.Token, ci, full, r.Blocked, obs.Log))
+				report(what+": "+w+"; "+sig, detail)
 				continue
 			}
 			f := d.Responses[k]
@@ -241,8 +247,14 @@ func c03hCheck(sc *hhScenario, obs *hhObs, r *vrt.Result, report func(kind, deta
 			// may still complete the request (the callback gives way to the retry being set up), so the bound
 			// checked is the route timeout plus the retry cycles (10ms back-off + per-try timeout) MOSN can
 			// still run: retryState grants max(3, num_retries) retries
-			if lim := c03hTimeBound(sc); lim > 0 && f.AtMs-d.SentAtMs[k] > lim {
-				report("response later than the route timeout plus every retry cycle that could still run", fmt.Sprintf("request %s sent at %dms, answered at %dms, bound %dms: %s", rq.Token, d.SentAtMs[k], f.AtMs, lim, f.String()))
+			// (HTTP/1 handles the requests of a connection one after the other: a pipelined request's
+			// time starts when its predecessor has been answered)
+			start := d.SentAtMs[k]
+			if k > 0 && d.Responses[k-1].AtMs > start {
+				start = d.Responses[k-1].AtMs
+			}
+			if lim := c03hTimeBound(sc); lim > 0 && f.AtMs-start > lim {
+				report("response later than the route timeout plus every retry cycle that could still run", fmt.Sprintf("request %s handed to MOSN at %dms, answered at %dms, bound %dms: %s", rq.Token, start, f.AtMs, lim, f.String()))
 			}
 			// nothing may be sent upstream for this request after its response went downstream
 			for ui, u := range obs.Ups {
